@@ -1,6 +1,7 @@
 """C19 - threads left behind by a test are reported precisely."""
 import itertools
 import random
+import zlib
 import re
 
 LEVEL = 'exploration'
@@ -94,7 +95,8 @@ def cases(tier, seed):
                     rel = (rng.choice(later),
                            rng.choice(['setUp', 'body', 'tearDown']))
                 ths.append({'api': rng.choice(['threading', '_thread',
-                                               '_thread_touch', 'timer']),
+                                               '_thread_touch', 'timer',
+                                               '_thread_late']),
                             'daemon': rng.random() < 0.6,
                             'name': rng.choice(['default', 'named',
                                                 'ignored', 'midign']),
@@ -153,6 +155,17 @@ def run_case(case):
                               'api': th['api'], 'name': name,
                               'daemon': th.get('daemon', True)})
             rel = tuple(th['rel'])
+            if th['api'] == '_thread_late' and rel[0] != 'same':
+                # it starts using the threading module during a later test,
+                # before it is released
+                last = L - 1 if rel[0] == 'never' else rel[0] - 1
+                if last >= i + 1:
+                    h = zlib.crc32(key.encode())
+                    k2 = i + 1 + h % (last - i)
+                    acts[k2].append(('setUp', {
+                        'ph': ['setUp', 'body'][(h >> 8) % 2],
+                        'do': 'touch_thread', 'ev': key}))
+                    keys[key]['touched_in'] = k2
             if rel[0] == 'same':
                 acts[i].append(('tearDown', {'ph': 'tearDown',
                                              'do': 'release', 'ev': key}))
@@ -259,6 +272,8 @@ def run_case(case):
         C('leaks_expected', len(want))
         C('dummy_threads', sum(1 for k in want
                                if keys[k]['api'].startswith('_thread')))
+        C('late_touch_in_this_test', sum(
+            1 for k in alive if keys[k].get('touched_in') == i))
         C('timer_leaks', sum(1 for k in want if keys[k]['api'] == 'timer'))
         C('nondaemon_leaks', sum(1 for k in want
                                  if keys[k].get('daemon') is False))
